@@ -179,6 +179,9 @@ func c04KindsBase() []c04Kind {
 		{id: "stmts-top", kind: "stmts", lit: map[string]string{"a": "*a.p = 1", "b": "[]int{1}[0]++", "c": "if g(1) { a() }"}, mvar: "x()", meta: model.MetaVar{Name: "x", Kind: "identifier"},
 			dots: "DOTS_%d", sep: "; ", open: "", close: "", eol: "", mark: "mark()", markX: "mark(x)",
 			fileOpen: "package p\n\nfunc f() {", fileEnd: "}\n"},
+		{id: "stmts-top-default", kind: "stmts", lit: map[string]string{"a": "*a.p = 1", "b": "[]int{1}[0]++", "c": "if g(1) { a() }"}, mvar: "x()", meta: model.MetaVar{Name: "x", Kind: "identifier"},
+			dots: "DOTS_%d", sep: "; ", open: "", close: "", eol: "", mark: "mark()", markX: "mark(x)",
+			fileOpen: "package p\n\nfunc f() {\n\tswitch v {\n\tcase 0:\n\t\tzero()\n\tdefault:", fileEnd: "\t}\n}\n"},
 		{id: "stmts-ifbody", kind: "stmts", lit: map[string]string{"a": "a()", "b": "b.c = 1", "c": "for { a() }"}, mvar: "x()", meta: model.MetaVar{Name: "x", Kind: "identifier"},
 			dots: "DOTS_%d", sep: "; ", open: "if cond {", close: "}", eol: "", mark: "mark()", markX: "mark(x)",
 			fileOpen: "package p\n\nfunc _() {\n\tpre()\n\tif cond {", fileEnd: "}\n\tpost()\n}\n"},
@@ -189,6 +192,9 @@ func c04KindsBase() []c04Kind {
 		{id: "stmts-ifbody-in-closure", kind: "stmts", lit: map[string]string{"a": "a()", "b": "b.c = 1", "c": "for { a() }"}, mvar: "x()", meta: model.MetaVar{Name: "x", Kind: "identifier"},
 			dots: "DOTS_%d", sep: "; ", open: "if cond {", close: "}", eol: "", mark: "mark()", markX: "mark(x)",
 			fileOpen: "package p\n\nfunc _() {\n\tpre()\n\tdefer func() {\n\t\tsetup()\n\t\tif cond {", fileEnd: "}\n\t}()\n\trun(func() {\n\t\tother()\n\t})\n}\n"},
+		{id: "stmts-default", kind: "stmts", lit: map[string]string{"a": "a()", "b": "b.c = 1", "c": "return"}, mvar: "x()", meta: model.MetaVar{Name: "x", Kind: "identifier"},
+			dots: "DOTS_%d", sep: "; ", open: "switch v {\ndefault:", close: "}", eol: "", mark: "mark()", markX: "mark(x)",
+			fileOpen: "package p\n\nfunc _() {\n\tswitch v {\n\tdefault:\n", fileEnd: "\n\t}\n}\n"},
 		{id: "stmts-case", kind: "stmts", lit: map[string]string{"a": "a()", "b": "b.c = 1", "c": "return"}, mvar: "x()", meta: model.MetaVar{Name: "x", Kind: "identifier"},
 			dots: "DOTS_%d", sep: "; ", open: "switch v {\ncase 1:", close: "}", eol: "", mark: "mark()", markX: "mark(x)",
 			fileOpen: "package p\n\nfunc _() {\n\tswitch v {\n\tcase 1:\n", fileEnd: "\n\t}\n}\n"},
@@ -243,11 +249,11 @@ func c04Gen(tier string, emit func(any)) {
 		if ki >= 10 && tier != "thorough" {
 			kpats = c04Patterns(pl - 1) // the later list kinds run one pattern length lower in the quick tier
 		}
-		if tier != "thorough" && contains([]string{"results-named", "funclit-results-named", "funclit-results", "functype-params", "method-params", "assign-rhs", "stmts-comm"}, k.id) {
+		if tier != "thorough" && contains([]string{"results-named", "funclit-results-named", "funclit-results", "functype-params", "method-params", "assign-rhs", "stmts-comm", "stmts-default", "stmts-top-default"}, k.id) {
 			klists = c04Lists(ll - 1) // ... and the latest ones also one list length lower
 		}
 		for _, pat := range kpats {
-			if k.id == "stmts-top" && (pat[0] == "D" || pat[len(pat)-1] == "D") {
+			if strings.HasPrefix(k.id, "stmts-top") && (pat[0] == "D" || pat[len(pat)-1] == "D") {
 				continue // an explicit elision next to the implicit one of a statement-list pattern
 			}
 			for _, ch := range c04Changes(k, pat) {
